@@ -186,6 +186,8 @@ class SymList:
             self.item = lambda s_, v=v: T.ite(T.compare("eq", s_, n), v, old_item(s_))
             self.length = T.add(n, 1)
             return
+        if isinstance(v, (list, tuple)) and v and all(T.is_scalar(M.unwrap(x)) for x in v):
+            v = M.array_from_seq(eng, list(v))          # a list of rows (each a short Python list): rows are kept as small arrays
         if not isinstance(v, I.Arr) or v.ndim < 1:
             raise Unsupported("append of a non-array to a symbolic list of arrays")
         if self.off is not None:
